@@ -638,4 +638,8 @@ V("C16", "format-spec-after-conversion", "S", "", R + "report.py", "Unexpected e
 V("C14", "toml-directory-normalised", "F", "R13", R + "global_licensing.py", "        return PurePath(self.source).parent\n", "        import os\n        return PurePath(os.path.normpath(self.source)).parent\n")
 V("C07", "c-terminator-with-blank", "F", "R8", R + "comment.py", '    SHORTHAND = "c"\n\n    MULTI_LINE = MultiLineSegments("/*", "*", "*/")\n    INDENT_BEFORE_MIDDLE = " "\n    INDENT_AFTER_MIDDLE = " "\n    INDENT_BEFORE_END = " "\n', '    SHORTHAND = "c"\n\n    MULTI_LINE = MultiLineSegments("/*", "*", " */")\n    INDENT_BEFORE_MIDDLE = " "\n    INDENT_AFTER_MIDDLE = " "\n')
 V("C04", "enum-alias", "F", "H", R + "__init__.py", 'DOT_LICENSE = "dot-license"', 'DOT_LICENSE = "file-header"')
+# C07-R12 / C02-R11 / C04-R9: the parser's None is no expression
+for _p, _r in (("C07", "R12"), ("C02", "R11"), ("C04", "R9"), ("C01", "C02.R11")):
+    V(_p, "empty-tag-stored-as-none", "F", _r, EXP, "        if parsed is not None:\n            expressions.add(parsed)\n", "        expressions.add(parsed)\n")
+V("C07", "empty-license-option-accepted", "F", "R12", R + "cli/common.py", "    if expression is None:\n        raise click.UsageError(\n            _(\"'{}' is not a valid SPDX expression.\").format(text)\n        )\n    return expression\n", "    return expression\n")
 
